@@ -479,6 +479,47 @@ def r04_24(run, model):
     run.floor("arms handing a matched ANF expression to the expression compiler", n, 6)
 
 
+def r04_25(run, model):
+    run.rule("R04.25", "a type is taken apart by the helper that recognises its kind: in compile_match.rs a function that looks its type up "
+                       "among the structs does not obtain the type arguments from the decomposer of enum types (and vice versa) - that helper "
+                       "answers None for the other kind, the arguments default to none and instantiating a generic definition panics")
+    CM = "crates/compiler/src/compile_match.rs"
+    helpers = {}
+    for g in model.fns(CM):
+        if g.body is None or not re.match(r"Option<\((\w+::)*TastIdent,Vec<(\w+::)*Ty>\)>", (g.node.get("ret") or "").replace(" ", "")):
+            continue
+        kinds = set()
+        for m_ in S.find(g.body, "Match"):
+            for arm in m_["arms"]:
+                pt = S.norm_ws(run.facts.text(CM, arm["pat"]["sp"]))
+                mm = re.match(r"Ty::(TEnum|TStruct)\{", pt)
+                if mm:
+                    kinds.add(mm.group(1))
+        if len(kinds) == 1:
+            helpers[g.name] = next(iter(kinds))
+    if len(helpers) < 2:
+        raise AnalysisIncomplete(f"type decomposers in compile_match.rs: {sorted(helpers)}")
+    n = 0
+    for f in model.fns(CM):
+        if f.body is None or f.name in helpers:
+            continue
+        txt = S.norm_ws(run.facts.text(CM, f.body["sp"]))
+        tables = {t for t in ("structs", "enums") if re.search(r"\." + t + r"\(\)", txt)}
+        for c in S.walk(f.body):
+            if c["k"] != "Call" or S.callee_name(c) not in helpers:
+                continue
+            n += 1
+            kind = helpers[S.callee_name(c)]
+            want = "structs" if kind == "TStruct" else "enums"
+            other = "enums" if want == "structs" else "structs"
+            bad = other in tables and want not in tables
+            run.ob("R04.25", f"{f.name}|{S.callee_name(c)} is applied to a type of its own kind", not bad, site(CM, c["sp"]),
+                   f"{S.callee_name(c)} recognises {kind}; {f.name} looks its type up in {sorted(tables) or 'no table'}",
+                   witness="let Pair { a, b } = p with p: Pair[int32, string]: `Struct Pair expects 2 type arguments, but got 0` - run, check and "
+                           "build exit with a panic on a well-typed program")
+    run.floor("uses of the type decomposers", n, 2)
+
+
 def r04_22(run, model):
     run.rule("R04.22", "two looks at the same token agree: the grammar is written `if p.at(K) { f(p) }` with `assert!(p.at(K))` inside f "
                        "(R04.3), so Parser::peek / nth must not change their answer between two calls without an `advance` - a look that "
@@ -654,9 +695,13 @@ def run(run, model):
     run.try_rule(r04_22, model)
     run.try_rule(r04_23, model)
     run.try_rule(r04_24, model)
+    run.try_rule(r04_25, model)
     # an unbalanced event stream makes the tree builder panic on the input that triggers it (shared with C12 R12.11)
     from rules import c12 as _c12
     run.try_rule(_c12.r12_11, model)
+    # an ill-typed pattern that passes the typer makes the match compiler panic (shared with C03 R03.5)
+    from rules import c03 as _c03
+    run.try_rule(_c03.r03_5, model)
     run.try_rule(r04_7, model)
     run.try_rule(r04_8, model)
     run.try_rule(r04_10, model, an)
